@@ -20,7 +20,10 @@ def run(ctx, proofs_ok):
     ops = []
     heads = [b"*-1\r\n", b"*0\r\n", b"*1\r\n$-1\r\n", b"*1\r\n$-9223372036854775808\r\n", b"*1\r\n$536870912\r\n", b"*1\r\n$536870913\r\n", b"*2147483648\r\n",
              b"*9223372036854775807\r\n$1\r\na\r\n", b"*1\r\n$99999999999999999999\r\n", b"*99999999999999999999\r\n", b"*1\r\n$ 3\r\nabc\r\n", b"*+1\r\n$+1\r\na\r\n",
-             b"\r", b"\n", b"\r\r\n", b" ", b"'", b"\"", b"\\", b"' \r\n", b"\" \"\r\n", b"a\\ b\r\n", b"'a\\' b\r\n", b"\x00", b"* \r\n", b"$3\r\nabc\r\n", b"+OK\r\n"]
+             b"\r", b"\n", b"\r\r\n", b" ", b"'", b"\"", b"\\", b"' \r\n", b"\" \"\r\n", b"a\\ b\r\n", b"'a\\' b\r\n", b"\x00", b"* \r\n", b"$3\r\nabc\r\n", b"+OK\r\n",
+             # inline (non-RESP) command lines with quotes: empty quoted arguments first / in the middle / last
+             b'RPUSH k first "" tail\r\n', b'"" a\r\n', b"'' a\r\n", b'SET k ""\r\n', b"SET k ''\r\n", b'""\r\n', b"''\r\n", b'ECHO "a" "" \'\'\r\n',
+             b'"\\\\"\r\n', b'a ""\r\n', b'a "" \r\n', b'"" ""\r\n', b'x "\\"" y\r\n', b"x '\\'' y\r\n", b'"a""b"\r\n', b'"\r\n', b'""', b'" "\r\n']
     for hd in heads:
         for tail in (b"", b"*1\r\n$4\r\nPING\r\n", b"PING\r\n"):
             s = hd + tail
